@@ -62,6 +62,10 @@ type c05case struct {
 	// inclusive JOIN: a token the fork activation did not produce arrives there before / between / after the fork's
 	// tokens (every order of answering Y and the branch tasks)
 	foreign bool
+	// seq2 > 0: TWO inclusive blocks in sequence; a branch task of the first block writes the variable the SECOND fork's
+	// conditions read (the other branch writes nothing). seq2 = 1: the writing branch is listed first, 2: second;
+	// `order` 0 / 1: the writer is answered first / last.
+	seq2 int
 }
 
 func c05cases(tier string) []c05case {
@@ -112,10 +116,108 @@ func c05cases(tier string) []c05case {
 			}
 		}
 	}
+	for seq2 := 1; seq2 <= 2; seq2++ {
+		for o := 0; o < 2; o++ {
+			cs = append(cs, c05case{c: 2, defPos: -1, truth: 3, early: -1, order: o, seq2: seq2})
+		}
+	}
 	return cs
 }
 
+// c05runSeq2: start -> A -> F1 -> {B0, B1} -> J1 -> F2 -> {C0 if w == 1, C1 if w == 0} -> J2 -> Z -> end. Both conditions of
+// F1 are true; the WRITER branch stores w = 1 (w starts as 0), the other branch stores nothing.
+func c05runSeq2(out *rec.Out, c c05case, rng *rec.Rng, stats map[string]int) {
+	g := eng.NewGraph()
+	st := g.Add("startEvent", "start", "")
+	a := g.Add("task", "A", "")
+	f1 := g.Add("inclusiveGateway", "I", "")
+	j1 := g.Add("inclusiveGateway", "J", "")
+	f2 := g.Add("inclusiveGateway", "I2", "")
+	j2 := g.Add("inclusiveGateway", "J2", "")
+	z := g.Add("task", "Z", "")
+	en := g.Add("endEvent", "end", "")
+	g.Connect(st, a, nil)
+	g.Connect(a, f1, nil)
+	writer := c.seq2 - 1 // index of the branch that writes w
+	var bs []*eng.Node
+	for j := 0; j < 2; j++ {
+		b := g.Add("task", fmt.Sprintf("B%d", j), "")
+		if j == writer {
+			b.Results = []string{"w"}
+		}
+		g.Connect(f1, b, &eng.Cond{Op: "eq", Var: fmt.Sprintf("b%d", j), K: 1})
+		g.Connect(b, j1, nil)
+		bs = append(bs, b)
+	}
+	g.Connect(j1, f2, nil)
+	c0 := g.Add("task", "C0", "")
+	c1 := g.Add("task", "C1", "")
+	g.Connect(f2, c0, &eng.Cond{Op: "eq", Var: "w", K: 1})
+	g.Connect(f2, c1, &eng.Cond{Op: "eq", Var: "w", K: 0})
+	g.Connect(c0, j2, nil)
+	g.Connect(c1, j2, nil)
+	g.Connect(j2, z, nil)
+	g.Connect(z, en, nil)
+	out.Begin("c05", c.c, c.defPos, c.truth, c.early, c.order, 0, 0, c.seq2)
+	defer out.End()
+	vars := map[string]int{"b0": 1, "b1": 1, "w": 0}
+	in, defs, err := eng.Start(g.XML(), map[string]any{"b0": 1, "b1": 1, "w": 0})
+	if err != nil {
+		out.Line("harness-error %v", err)
+		return
+	}
+	for _, l := range eng.ProgLines(&(*defs.Processes())[0], g.CondRPN) {
+		out.Line("prog %s", l)
+	}
+	out.Line("prog vars %s", fmtVars(vars))
+	stats["cases"]++
+	stats["two_inclusive_blocks_in_sequence"]++
+	answer := func(node string, res map[string]int) bool {
+		if !in.Quiesce(4 * timeSecond) {
+			in.Note("obs noquiesce")
+			return false
+		}
+		for _, q := range in.Pending() {
+			if q.Node == node {
+				return in.AnswerOK(q, res)
+			}
+		}
+		return false
+	}
+	answer("A", nil)
+	wn, on := fmt.Sprintf("B%d", writer), fmt.Sprintf("B%d", 1-writer)
+	if c.order == 0 {
+		answer(wn, map[string]int{"w": 1})
+		answer(on, nil)
+	} else {
+		answer(on, nil)
+		answer(wn, map[string]int{"w": 1})
+	}
+	for steps := 0; steps < 6; steps++ {
+		if !in.Quiesce(4 * timeSecond) {
+			in.Note("obs noquiesce")
+			break
+		}
+		rest := in.Pending()
+		if len(rest) == 0 {
+			break
+		}
+		in.AnswerOK(rest[0], nil)
+	}
+	complete := in.WaitComplete(300 * timeMillisecond)
+	in.Quiesce(2 * timeSecond)
+	for _, l := range in.Lines() {
+		out.Line("%s", l)
+	}
+	out.Line("obs final complete=%d vars=%s", rec.B(complete), in.Vars())
+	in.Stop(2 * timeSecond)
+}
+
 func c05run(out *rec.Out, c c05case, rng *rec.Rng, stats map[string]int) {
+	if c.seq2 > 0 {
+		c05runSeq2(out, c, rng, stats)
+		return
+	}
 	g := eng.NewGraph()
 	st := g.Add("startEvent", "start", "")
 	a := g.Add("task", "A", "")
